@@ -33,11 +33,21 @@ pub static ARENA: LazyLock<RwLock<arena::Arena>> = LazyLock::new(|| RwLock::new(
 // ---------------------------------------------------------------------------
 // C13: the deadline on the step clock.  ticks <= COST_K * (n + m) + COST_C
 // Derivation in DESIGN.md section C13.
-pub const COST_K: u64 = 24;
+pub const COST_K: u64 = 40;
+/// without SSE2 the portable prefilter is used, whose per-call cost is
+/// proportional to the pair offset (<= 254): a much larger constant
+pub const COST_K_NOSIMD: u64 = 56;
 pub const COST_C: u64 = 20_000;
 
+pub fn cost_k() -> u64 {
+    match world::world() {
+        Some(w) if matches!(w.env.cpu, Cpu::NoSimd) => COST_K_NOSIMD,
+        _ => COST_K,
+    }
+}
+
 pub fn cost_bound(size: u64) -> u64 {
-    COST_K * size + COST_C
+    cost_k() * size + COST_C
 }
 
 #[derive(Default, Clone, Debug, serde::Serialize, serde::Deserialize)]
@@ -51,6 +61,9 @@ pub struct CostStats {
     pub max_n: u64,
     pub max_m: u64,
     pub total_ticks: u64,
+    /// max ratio (1/1000 ticks per byte) per simulated CPU [host, no-avx2, no-simd]
+    #[serde(default)]
+    pub max_ratio_milli_by_cpu: [u64; 3],
 }
 
 impl CostStats {
@@ -58,12 +71,23 @@ impl CostStats {
         self.samples += 1;
         self.total_ticks += dt;
         let r = dt * 1000 / (n + m + 1);
+        if r > 11000 && n + m >= 4096 && std::env::var_os("MEMSIM_COSTDBG").is_some() {
+            eprintln!("COSTDBG family={} {:?} n={} m={} ticks={}", PROG_FAMILY.load(Ordering::Relaxed), f, n, m, dt);
+        }
         // the ratio is only meaningful once the constant term is negligible
+        if n + m >= 4096 {
+            if let Some(w) = world::world() {
+                let c = w.env.cpu as usize;
+                if r > self.max_ratio_milli_by_cpu[c] {
+                    self.max_ratio_milli_by_cpu[c] = r;
+                }
+            }
+        }
         if n + m >= 4096 && r > self.max_ratio_milli {
             self.max_ratio_milli = r;
             self.max_ratio_case = format!("{:?} n={} m={} ticks={}", f, n, m, dt);
         }
-        let ex = dt as i64 - (COST_K * (n + m)) as i64;
+        let ex = dt as i64 - (cost_k() * (n + m)) as i64;
         if self.samples == 1 || ex > self.max_excess {
             self.max_excess = ex;
         }
@@ -85,6 +109,9 @@ impl CostStats {
         }
         self.max_n = self.max_n.max(o.max_n);
         self.max_m = self.max_m.max(o.max_m);
+        for i in 0..3 {
+            self.max_ratio_milli_by_cpu[i] = self.max_ratio_milli_by_cpu[i].max(o.max_ratio_milli_by_cpu[i]);
+        }
     }
 }
 
@@ -257,6 +284,7 @@ fn host_avx2() -> bool {
     }
 }
 
+static COST_MAX_LOG2: AtomicUsize = AtomicUsize::new(16);
 static PORTABLE: std::sync::atomic::AtomicBool = std::sync::atomic::AtomicBool::new(false);
 
 pub fn target() -> gen::Target {
@@ -271,7 +299,7 @@ pub fn target() -> gen::Target {
         aarch64: cfg!(target_arch = "aarch64"),
         miri,
         scale_small: miri,
-        cost_max_log2: if miri { 10 } else { 16 },
+        cost_max_log2: if miri { 10 } else { COST_MAX_LOG2.load(Ordering::Relaxed) as u32 },
     }
 }
 
@@ -346,7 +374,7 @@ pub fn execute(
     }));
     // SAFETY: freed below, after hooks are uninstalled and all tasks joined
     let w: &'static World = unsafe { &*w_raw };
-    ARENA.write().unwrap().load(&ep.bufs);
+    ARENA.write().unwrap().load(&ep.bufs, env.poison);
     // fresh process: every dispatch slot back to its detector
     exec_std::reset_slots();
     exec_alloc::reset_slots();
@@ -832,6 +860,9 @@ fn main() {
     if args.is_empty() {
         eprintln!("usage: memsim run|replay|minimise|gen|info ...");
         std::process::exit(2);
+    }
+    if let Some(v) = arg(&args, "--cost-max-log2") {
+        COST_MAX_LOG2.store(v.parse().expect("--cost-max-log2"), Ordering::Relaxed);
     }
     if flag(&args, "--portable") {
         PORTABLE.store(true, Ordering::Relaxed);
